@@ -21,7 +21,7 @@ import (
 // variables boxed for closures are replaced by the value(s) stored into them.
 // ---------------------------------------------------------------------------
 
-const maxDepth = 14
+const maxDepth = 32
 
 type rctx struct {
 	e     *Eng
@@ -198,6 +198,11 @@ func (c *rctx) x(v ssa.Value) string {
 	if c.depth > maxDepth {
 		return "…"
 	}
+	if isContextType(v.Type()) {
+		// contexts are plumbing: which derived context is passed is never what a rule
+		// decides by rendering (rules that care inspect the With* calls directly)
+		return "ctx"
+	}
 	switch v := v.(type) {
 	case *ssa.Parameter:
 		return c.param(v)
@@ -285,6 +290,16 @@ func (c *rctx) x(v ssa.Value) string {
 	case *ssa.MakeChan:
 		return "makechan:" + short(types.TypeString(v.Type(), nil))
 	case *ssa.Slice:
+		if a, ok := v.X.(*ssa.Alloc); ok && (a.Comment == "varargs" || a.Comment == "slicelit") && v.Low == nil && v.High == nil {
+			els := c.e.OrderedElems(v)
+			if len(els) > 0 && len(els) <= 8 {
+				var xs []string
+				for _, el := range els {
+					xs = append(xs, c.x(el))
+				}
+				return "[" + strings.Join(xs, ", ") + "]"
+			}
+		}
 		s := "slice(" + c.x(v.X)
 		if v.Low != nil {
 			s += ",lo=" + c.x(v.Low)
@@ -628,4 +643,13 @@ func isLenCall(v ssa.Value) bool {
 	}
 	b, ok := c.Call.Value.(*ssa.Builtin)
 	return ok && b.Name() == "len"
+}
+
+func isContextType(t types.Type) bool {
+	n, ok := t.(*types.Named)
+	if !ok {
+		return false
+	}
+	o := n.Obj()
+	return o != nil && o.Pkg() != nil && o.Pkg().Path() == "context" && o.Name() == "Context"
 }
